@@ -63,6 +63,12 @@ def kvSet (m : KV) (k v : Bytes) : KV := (k, v) :: m.filter (fun x => x.1 != k)
     concluded from such a use -/
 def kvSetO (m : Option KV) (k v : Bytes) : Option KV := m.map fun l => kvSet l k v
 
+/-- `v, ok := m[k]` on a nil-able string map (reading a nil map finds nothing) -/
+def kvGetO (m : Option KV) (k : Bytes) : Bytes × Bool :=
+  match (m.getD []).find? (fun x => x.1 == k) with
+  | some x => (x.2, true)
+  | none => ([], false)
+
 /-- `m[k]` on a string-valued Go map (the zero value "" when the key is absent) -/
 def kvGetD (m : KV) (k : Bytes) : Bytes :=
   match m.find? (fun x => x.1 == k) with
